@@ -1259,6 +1259,55 @@ def check_m_grid(repo, chk):
     chk.out("  [E5-mgrid] m grids for 2j = 0..8 checked")
 
 
+def lookup_by_interpretation(repo, chk, table_name, table, tier):
+    """get_cg_coef interpreted as a whole, with the JSON table as the module global it reads, at every admissible point of
+    the table's spin range in both orderings (python ints for integer spins, floats for half-integer ones, as callers pass
+    them) plus points outside the selection rules: the value is the exact coefficient"""
+    from ..sym import Raised, Translator, Unmodelled
+    chk.rule("E5-lookup-sem", "get_cg_coef interpreted as a whole (table = the bundled JSON, try/except and nested helper included) at every admissible (j1, m1, j2, m2, J) of the spin range, both orderings, plus J outside the triangle: the result is the exact Clebsch-Gordan coefficient (sign of the (j1,m1)<->(j2,m2) exchange included)")
+    fn = repo.fn(CG_REL + "::get_cg_coef")
+    # the spin range the table covers: its stored (j1, j2) blocks, consulted in both orderings
+    stored = sorted({Fraction(k) for k in table} | {Fraction(k2) for k in table for k2 in table[k]})
+    jmax = Fraction(2) if tier == "quick" else max(stored)
+    spins = [x for x in stored if x <= jmax]
+
+    def py(x):
+        return int(x) if x.denominator == 1 else float(x)
+
+    tr = Translator(repo, hooks={"globals": {table_name: table}, "allow_raise": True, "builtin.isinstance": lambda tr_, a_, k_, n_: False}, max_depth=3)
+    n, bad = 0, []
+    for j1 in spins:
+        for j2 in spins:
+            Js = [abs(j1 - j2) + k for k in range(int(j1 + j2 - abs(j1 - j2)) + 1)] + [j1 + j2 + 1]
+            for k1 in range(int(2 * j1) + 1):
+                m1 = -j1 + k1
+                for k2 in range(int(2 * j2) + 1):
+                    m2 = -j2 + k2
+                    for J in Js:
+                        if abs(m1 + m2) > J and J <= j1 + j2:
+                            continue
+                        try:
+                            got = tr.call_fn(fn, [py(j1), py(j2), py(m1), py(m2), py(J), py(m1 + m2)])
+                        except Unmodelled as e:
+                            return "unmodelled: %s" % e
+                        except Raised as e:
+                            got = "raises %s" % e
+                        want = cg_exact(j1, m1, j2, m2, J, m1 + m2)
+                        n += 1
+                        try:
+                            ok = abs(float(got) - want) < 1e-12
+                        except (TypeError, ValueError):
+                            ok = False
+                        if not ok:
+                            bad.append("get_cg_coef(%s, %s, %s, %s, %s, %s) = %s, exact value %.12g" % (py(j1), py(j2), py(m1), py(m2), py(J), py(m1 + m2), got, want))
+    chk.oblige("E5-lookup-sem", "get_cg_coef interpreted at %d points (stored spins up to %s, both orderings): %d deviations" % (n, jmax, len(bad)), not bad)
+    if bad:
+        chk.violation("E5-lookup-sem", fn.key, "value", "%d of %d points deviate from the exact coefficient; first: %s" % (len(bad), n, bad[0]), file=CG_REL, line=fn.lineno)
+    if n < 100:
+        raise AnalysisError("E5-lookup-sem: only %d points" % n)
+    return True
+
+
 def run(repo, chk, tier):
     chk.rule("E5-cg", "every leaf of the bundled JSON table equals the exact Clebsch-Gordan coefficient of its key path (Racah formula, exact rationals, one sqrt; |delta|<1e-12) and its key path obeys the selection rules")
     chk.rule("E5-cg-complete", "within each stored (j1,j2) block no admissible key path with non-zero coefficient is absent (an absent path is served as 0.0)")
@@ -1280,7 +1329,16 @@ def run(repo, chk, tier):
     table_name, rel, line = locate_table(repo)
     chk.instance("E5-cg", "%s binds `%s` to json.load of %s (line %d)" % (CG_REL, table_name, rel, line), nontrivial=False)
     table, entries, blocks, keys_ok = check_table(repo, chk, rel)
-    done = check_lookup(repo, chk, table_name, table, entries, blocks)
+    sem = lookup_by_interpretation(repo, chk, table_name, table, tier)
+    try:
+        done = check_lookup(repo, chk, table_name, table, entries, blocks)
+    except AnalysisError as e:
+        if sem is not True:
+            raise
+        chk.info("path-summary rules E5-swap / E5-sign / E5-key / E5-lookup not completed (%s); get_cg_coef is decided by E5-lookup-sem" % e)
+        done = False
+    if sem is not True:
+        chk.info("E5-lookup-sem: get_cg_coef not interpretable as a whole (%s); decided by the path summaries" % sem)
     scan_literal_tables(repo, chk)
     check_m_grid(repo, chk)
     from .c12_su2 import check_su2
